@@ -2,7 +2,7 @@
 import calendar
 from datetime import datetime, timedelta
 
-from ..gen.common import MN, WN, dst_wall_case, rng
+from ..gen.common import MN, WN, dst_edges, dst_wall_case, rng
 from ..hooks import AnchorCounter
 from ..monitors import PathTap
 from ..util import iso, parse_iso
@@ -159,13 +159,19 @@ def check_case(ctx, c):
                 readings = [tz.localize(r) if hasattr(tz, "localize") else r.replace(tzinfo=tz)]
             r_utcs = [x.astimezone(pytz.utc).replace(tzinfo=None) for x in readings]
             day = timedelta(days=1)
+            # slack = the largest clock change of the zone within two days of the reference (1 h usually, 2 h for double
+            # summer time, 30 min for Lord Howe), at least 1 h: across such a change "a day earlier/later" is not 24 h
+            slack = timedelta(hours=1)
+            for t_utc, before, after in dst_edges(c["zone"], b.year - 1, b.year + 1) if hasattr(tz, "_utc_transition_times") else []:
+                if abs(t_utc - b) < timedelta(days=2, hours=15):
+                    slack = max(slack, abs(after - before))
 
             def holds(rr, bb):
                 if pref == "past":
-                    return rr <= bb and bb - rr < day + timedelta(hours=1)
+                    return rr <= bb and bb - rr < day + slack
                 if pref == "future":
-                    return rr >= bb and rr - bb < day + timedelta(hours=1)
-                return abs(rr - bb) < day + timedelta(hours=1)
+                    return rr >= bb and rr - bb < day + slack
+                return abs(rr - bb) < day + slack
 
             if not (any(holds(x, b) for x in r_utcs) or holds(r, b)):
                 why = "direction"
